@@ -241,13 +241,15 @@ class LaneBasedExecutionQueue : public ExecutionQueue {
       } else {
         queueCompleteCondition.wait_for(lock, std::chrono::seconds(10));
       }
-
-#if _WIN32
-      spawnedProcesses.signalAll(SIGTERM);
-#else
-      spawnedProcesses.signalAll(SIGKILL);
-#endif
     }
+
+    // Escalate also when the queue completed before this thread got here: the
+    // lanes are joined, but processes that released their lane may still run.
+#if _WIN32
+    spawnedProcesses.signalAll(SIGTERM);
+#else
+    spawnedProcesses.signalAll(SIGKILL);
+#endif
   }
 
 public:
